@@ -5,8 +5,9 @@ result the library returned: integer add/sub/mul/compare/shift, Booth recoding, 
 (congruences with quotient witnesses), point doubling/addition/negation/subtraction for equal, opposite, infinite and non-normalised
 operands (chord/tangent relations with slope witnesses), and scalar multiplication by every route against the reference with
 TLC-checked double-and-add chains for a sample.  Operands are boundary-biased (0, 1, 2, p-1, p, p+1, n-1, n, 2^256-1, limb
-boundaries, random).  Thorough also builds the ENABLE_SM2_AMD64 variant."""
+boundaries, random).  Both tiers also build and judge the ENABLE_SM2_AMD64 (assembly) variant."""
 from common import *
+import hashlib
 import cryptolib as CL
 import json
 from sm2ref import *
@@ -104,6 +105,21 @@ def gen(c):
             else:
                 put({"op": "modn_exp", "a": H(x), "e": H(ee)}, {"op": "modn_exp", "expect": W.limbs(pow(x, ee, n))})
                 put({"op": "modn_mont_exp", "a": H(x), "e": H(ee)}, {"op": "modn_mont_exp", "expect": W.limbs((pow(x * pow(R, -1, n), ee, n) * R) % n)})
+        # exponent shapes: zero limbs below a non-zero one, single bits at limb edges, all-ones limbs, sparse / dense windows -- for every exponentiation route
+        M64 = (1 << 64) - 1
+        shapes = [1 << 64, (1 << 64) - 1, (1 << 64) + 1, 1 << 128, (1 << 128) + 5, 1 << 192, (1 << 192) + (1 << 64), (1 << 192) + 1, (1 << 255) % mod, (1 << 63), (1 << 127), (1 << 191),
+                  M64 << 64, M64 << 128, (M64 << 192) % mod, (M64 << 128) | M64, 0x8000000000000000000000000000000000000000000000000000000000000001 % mod, 0x0f0f0f0f0f0f0f0f0f0f0f0f0f0f0f0f0f0f0f0f0f0f0f0f0f0f0f0f0f0f0f0f % mod,
+                  0x1111111111111111111111111111111111111111111111111111111111111111 % mod, mod - 1, mod - 2, mod - 3, 0, 1, 2, 3, 4, 5, 15, 16, 17, 31, 32, 33]
+        for z in range(4):           # a random exponent with limb z cleared, and with only limb z set
+            e0 = rng.randrange(mod)
+            shapes += [e0 & ~(M64 << (64 * z)), e0 & (M64 << (64 * z))]
+        for ee in shapes:
+            for x in ([2, rng.randrange(2, mod)] if c.quick else [2, 3, mod - 1, rng.randrange(2, mod), rng.randrange(2, mod)]):
+                if tag == "modp":
+                    put({"op": "modp_mont_exp", "a": H(x), "e": H(ee)}, {"op": "modp_mont_exp", "expect": W.limbs((pow(x * pow(R, -1, p), ee, p) * R) % p)})
+                else:
+                    put({"op": "modn_exp", "a": H(x), "e": H(ee)}, {"op": "modn_exp", "expect": W.limbs(pow(x, ee, n))})
+                    put({"op": "modn_mont_exp", "a": H(x), "e": H(ee)}, {"op": "modn_mont_exp", "expect": W.limbs((pow(x * pow(R, -1, n), ee, n) * R) % n)})
     # points
     pts = [G, mul(2, G), mul(n - 1, G), mul(rng.randrange(1, n), G), mul(rng.randrange(1, n), G), lift_x(next(x for x in range(1, 60) if lift_x(x, 0)), 0), (0, sqrt_p(b))]
 
@@ -138,6 +154,16 @@ def gen(c):
     # scalar multiplication by every route
     ks = [0, 1, 2, 3, n - 2, n - 1, n, n + 1, R - 1, 1 << 255, (1 << 128) - 1, 0xaaaaaaaaaaaaaaaaaaaaaaaaaaaaaaaaaaaaaaaaaaaaaaaaaaaaaaaaaaaaaaaa, 0x5555555555555555555555555555555555555555555555555555555555555555] + \
          [rng.randrange(R) for _ in range(6 if c.quick else 60)]
+    # scalar shapes: every nibble value repeated (table index v everywhere), Booth-window edge digits (2^(w-1) and 2^(w-1) +- 1 in every 5- and 7-bit window),
+    # zero limbs below / above non-zero ones, single bits at limb and window edges
+    M64 = (1 << 64) - 1
+    shapes = [int("%x" % v * 64, 16) for v in range(1, 16)]
+    for w in (5, 7):
+        for dgt in ((1 << (w - 1)) - 1, 1 << (w - 1), (1 << (w - 1)) + 1, (1 << w) - 1):
+            shapes.append(sum(dgt << (w * i) for i in range(256 // w + 1)) % R)
+    e0 = rng.randrange(R)
+    shapes += [e0 & ~(M64 << (64 * z)) for z in range(4)] + [e0 & (M64 << (64 * z)) for z in range(4)] + [1 << b for b in (4, 5, 7, 63, 64, 127, 128, 191, 192, 252, 254)]
+    ks += shapes if not c.quick else shapes[::2] + shapes[1:15:4]
 
     def exp_pt(Q): return {"einf": Q is None, "ex": W.limbs(Q[0]) if Q else [], "ey": W.limbs(Q[1]) if Q else []}
     nchain = 0
@@ -169,12 +195,17 @@ def witness_for(w, r):
     if kind == "sqrt": return cw(r * r, x * R, m)
 
 
+def short(v):
+    v = str(v)
+    return v if len(v) <= 20 else v.lstrip("0")[:6] + "~" + hashlib.sha1(v.encode()).hexdigest()[:10]
+
+
 def run_variant(c, variant, lines, cases):
     res = CL.run_script("z256drv", ["z256drv.c", "vh.c"], lines, variant=variant, tag="c13" + variant, procs=8)
     jc, meta = [], []
     booth = {}
     for (line, evs, san), case in zip(res, cases):
-        key = "c13:%s:%s:%s" % (variant, case["op"], ":".join(str(line.get(k, ""))[:20] for k in ("a", "b", "k", "P", "n", "w", "i") if line.get(k, "") not in ("", "-")))
+        key = "c13:%s:%s:%s" % (variant, case["op"], ":".join(short(line.get(k, "")) for k in ("a", "b", "e", "k", "t", "s", "P", "Q", "n", "w", "i") if line.get(k, "") not in ("", "-")))
         c.count(1, key)
         if san or not evs:
             if case["op"] == "chain":
@@ -222,7 +253,7 @@ def body():
     lines, cases = gen(c)
     log("[C13] %d operation cases" % len(lines))
     meta = run_variant(c, "asan", lines, cases)
-    if not c.quick:
+    if True:            # the ENABLE_SM2_AMD64 assembly back end gets the same cases in both tiers
         try:
             run_variant(c, "amd64", lines, cases)
         except RuntimeError as ex:
